@@ -878,6 +878,8 @@ fn capacity_preds(a: &Analysis, v: &mut Vec<Viol>, f: &mut Feat) {
                 let g = match &o.res {
                     Res::Val(_) => 1,
                     Res::Count(n, _) => *n as i64,
+                    // a polled receive future that is dropped may have consumed one value
+                    Res::Dropped(n) if *n >= 1 => 1,
                     _ => 0,
                 };
                 if g > 0 {
